@@ -28,7 +28,7 @@ PROFILES = {
     "metadata": dict(
         property="C11",
         oracles=["O11"],
-        weights=_w(select=7, rename=6, mutate=8, summarize=4, join=4, union=2, alias=3, collect=2, recompute=2, ref=2, mutate_w=1, transfer=1),
+        weights=_w(select=7, rename=6, mutate=8, summarize=4, join=5, collide_setup=3, union=2, alias=3, collect=2, recompute=2, ref=2, mutate_w=1, transfer=1),
         mutate_kinds=EW,
         window_kinds=WIN,
         mutate_names=[4, 5, 2, 1],
